@@ -8,7 +8,7 @@ OUT=${1:-$HERE/matrix_out}; shift || true
 mkdir -p "$OUT"
 SRC=${SRC:-$HERE/seeded}      # SRC=$HERE/benign runs the same matrix over the behaviour-preserving edits (expect no alarm)
 SEEDS=${*:-$(ls -d "$SRC"/C??_* | xargs -n1 basename)}
-PROPS=$(python3 -c "import json;print(' '.join(c['property_id'] for c in json.load(open('$HERE/MANIFEST.json'))['checks']))")
+PROPS=${ONLY_PROPS:-$(python3 -c "import json;print(' '.join(c['property_id'] for c in json.load(open('$HERE/MANIFEST.json'))['checks']))")}   # ONLY_PROPS="C04 C07": a sub-matrix
 LANES=${LANES:-3}
 
 lane() {   # lane <n> <seed...>
